@@ -1,10 +1,248 @@
 import CueVerif.Driver.Proto
+import CueVerif.Spec.Toml
+/-!
+Protocol handler for C12 (the TOML codec model).
+
+A DOCUMENT is one word: `-` (empty) or root expressions joined with `;`
+    K<keys>=<val>      key-value            T<keys>   [table]        A<keys>   [[array table]]
+  keys : names joined with `.`; a name is lowercase hex of its bytes, `~` for the empty name
+  val  : a<kind>:<hex|~>                      scalar (kind 0 string, 1 int, 2 float, 3 bool)
+       | [] | [<val>,…]                       array
+       | {} | {<keys>=<val>,…}                inline table
+A TREE is a val whose inline tables have one-part keys only.
+FACTS are rendered `path=leaf` joined with `,`, sorted, deduplicated; path = `/` followed by
+segments `k<hex|~>` / `i<n>` joined with `/`; leaf = `T` | `A` | `a<kind>:<hex|~>`.
+
+  tomldecode <doc>         MODEL of encoding/toml.Decoder: `err dupKey|arrayAsTable|keyAsArray|panic`,
+                           `conflict` (the facts are contradictory: CUE reports conflicting values),
+                           or `ok <facts>` (closed)
+  tomlvalid <doc>          SPEC: `accept` | `reject`
+  tomldata <doc> <facts>   SPEC as judge of the implementation's answer: `agree` when the document
+                           is invalid (nothing promised) or its meaning has exactly these facts,
+                           else `differ <facts of the spec>`
+  tomlround <tree>         MODEL: decode (emit tree): `ok <facts>` when it succeeds with the facts
+                           of the tree and the SPEC accepts the emission with the same meaning
+                           (theorems C12_toml_roundtrip / C12_toml_emit_valid say: always)
+  tomlemit <tree>          MODEL of the encoder: the emitted document
+-/
 namespace CueVerif.Driver.C12
-open CueVerif CueVerif.Driver
+open CueVerif CueVerif.Driver CueVerif.Toml CueVerif.Toml.Spec
+
+abbrev P (α : Type) := List Char → Option (α × List Char)
+
+def isHexChar (c : Char) : Bool := (hexVal c).isSome && !c.isUpper
+
+def takeHex : List Char → List Char × List Char
+  | c :: r => if isHexChar c then let (a, b) := takeHex r; (c :: a, b) else ([], c :: r)
+  | [] => ([], [])
+
+def pName : P Name
+  | '~' :: r => some ([], r)
+  | cs =>
+    let (h, r) := takeHex cs
+    if h.isEmpty then none else (unhexAux h []).map (fun n => (n, r))
+
+def pKeys (fuel : Nat) : P (List Name)
+  | cs =>
+    match fuel with
+    | 0 => none
+    | fuel + 1 =>
+      match pName cs with
+      | none => none
+      | some (n, '.' :: r) => (pKeys fuel r).map (fun (ns, r') => (n :: ns, r'))
+      | some (n, r) => some ([n], r)
+
+def takeDigits : List Char → List Char × List Char
+  | c :: r => if c.isDigit then let (a, b) := takeDigits r; (c :: a, b) else ([], c :: r)
+  | [] => ([], [])
+
+def pAtom : P Atom
+  | cs =>
+    let (d, r) := takeDigits cs
+    match (String.ofList d).toNat?, r with
+    | some k, ':' :: r' => (pName r').map (fun (t, r'') => ({ kind := k, text := t }, r''))
+    | _, _ => none
+
+mutual
+def pVal (fuel : Nat) : P Val
+  | cs =>
+    match fuel with
+    | 0 => none
+    | fuel + 1 =>
+      match cs with
+      | 'a' :: r => (pAtom r).map (fun (a, r') => (.sc a, r'))
+      | '[' :: ']' :: r => some (.arr [], r)
+      | '[' :: r => (pElems fuel r).map (fun (xs, r') => (.arr xs, r'))
+      | '{' :: '}' :: r => some (.inl [], r)
+      | '{' :: r => (pFields fuel r).map (fun (kvs, r') => (.inl kvs, r'))
+      | _ => none
+def pElems (fuel : Nat) : P (List Val)
+  | cs =>
+    match fuel with
+    | 0 => none
+    | fuel + 1 =>
+      match pVal fuel cs with
+      | some (v, ',' :: r) => (pElems fuel r).map (fun (vs, r') => (v :: vs, r'))
+      | some (v, ']' :: r) => some ([v], r)
+      | _ => none
+def pFields (fuel : Nat) : P (List (List Name × Val))
+  | cs =>
+    match fuel with
+    | 0 => none
+    | fuel + 1 =>
+      match pKeys fuel cs with
+      | some (ks, '=' :: r) =>
+        match pVal fuel r with
+        | some (v, ',' :: r') => (pFields fuel r').map (fun (kvs, r'') => ((ks, v) :: kvs, r''))
+        | some (v, '}' :: r') => some ([(ks, v)], r')
+        | _ => none
+      | _ => none
+end
+
+def pEv (fuel : Nat) : P Ev
+  | 'K' :: r =>
+    match pKeys fuel r with
+    | some (ks, '=' :: r') => (pVal fuel r').map (fun (v, r'') => (.kv ks v, r''))
+    | _ => none
+  | 'T' :: r => (pKeys fuel r).map (fun (ks, r') => (.table ks, r'))
+  | 'A' :: r => (pKeys fuel r).map (fun (ks, r') => (.arrayTable ks, r'))
+  | _ => none
+
+def pDoc (fuel : Nat) : Nat → List Char → Option (List Ev)
+  | 0, _ => none
+  | n + 1, cs =>
+    match pEv fuel cs with
+    | some (e, []) => some [e]
+    | some (e, ';' :: r) => (pDoc fuel n r).map (e :: ·)
+    | _ => none
+
+def parseDoc (w : String) : Option (List Ev) :=
+  if w == "-" then some [] else pDoc (w.length + 1) (w.length + 1) w.toList
+
+def parseVal (w : String) : Option Val :=
+  match pVal (w.length + 1) w.toList with
+  | some (v, []) => some v
+  | _ => none
+
+mutual
+def valToTree : Val → Option Tree
+  | .sc a => some (.sc a)
+  | .arr xs => (elemsToTree xs).map .arr
+  | .inl kvs => (fieldsToTree kvs).map .tbl
+def elemsToTree : List Val → Option (List Tree)
+  | [] => some []
+  | x :: xs => match valToTree x, elemsToTree xs with
+    | some t, some ts => some (t :: ts)
+    | _, _ => none
+def fieldsToTree : List (List Name × Val) → Option (List (Name × Tree))
+  | [] => some []
+  | kv :: rest => match kv.1, valToTree kv.2, fieldsToTree rest with
+    | [k], some t, some ts => some ((k, t) :: ts)
+    | _, _, _ => none
+end
+
+/-! rendering -/
+
+def showName (n : Name) : String := if n.isEmpty then "~" else hex n
+
+def showSeg : Seg → String
+  | .key n => "k" ++ showName n
+  | .idx i => "i" ++ toString i
+
+def showAtom (a : Atom) : String := "a" ++ toString a.kind ++ ":" ++ showName a.text
+
+def showLeaf : Leaf → String
+  | .atom a => showAtom a
+  | .tbl => "T"
+  | .arr => "A"
+
+def showFact (f : Fact) : String :=
+  "/" ++ "/".intercalate (f.1.map showSeg) ++ "=" ++ showLeaf f.2
+
+def insertStr (x : String) : List String → List String
+  | [] => [x]
+  | y :: ys => if x < y then x :: y :: ys else if x == y then y :: ys else y :: insertStr x ys
+
+/-- merge sort would be nicer; documents are small -/
+def sortDedup (xs : List String) : List String := xs.foldr insertStr []
+
+def showFacts (fs : List Fact) : String :=
+  let l := sortDedup ((closure fs).map showFact)
+  if l.isEmpty then "-" else ",".intercalate l
+
+def showKeys (ks : List Name) : String := ".".intercalate (ks.map showName)
+
+mutual
+def showVal : Val → String
+  | .sc a => showAtom a
+  | .arr xs => "[" ++ ",".intercalate (showElems xs) ++ "]"
+  | .inl kvs => "{" ++ ",".intercalate (showFields kvs) ++ "}"
+def showElems : List Val → List String
+  | [] => []
+  | x :: xs => showVal x :: showElems xs
+def showFields : List (List Name × Val) → List String
+  | [] => []
+  | kv :: rest => (showKeys kv.1 ++ "=" ++ showVal kv.2) :: showFields rest
+end
+
+def showEv : Ev → String
+  | .kv ks v => "K" ++ showKeys ks ++ "=" ++ showVal v
+  | .table ks => "T" ++ showKeys ks
+  | .arrayTable ks => "A" ++ showKeys ks
+
+def showDoc (evs : List Ev) : String :=
+  if evs.isEmpty then "-" else ";".intercalate (evs.map showEv)
+
+def errStr : DecErr → String
+  | .dupKey => "dupKey"
+  | .arrayAsTable => "arrayAsTable"
+  | .keyAsArray => "keyAsArray"
+  | .stalePanic => "panic"
 
 /-- protocol handler for C12: words of one op line (after the property id) → answer -/
 def handle (ws : List String) : String :=
   match ws with
+  | ["tomldecode", d] =>
+    match parseDoc d with
+    | none => "bad-op"
+    | some evs =>
+      match decode evs with
+      | .error e => "err " ++ errStr e
+      | .ok fs => if conflictB fs then "conflict" else "ok " ++ showFacts fs
+  | ["tomlvalid", d] =>
+    match parseDoc d with
+    | none => "bad-op"
+    | some evs =>
+      match tomlSpec evs with
+      | .error _ => "reject"
+      | .ok _ => "accept"
+  | ["tomldata", d, facts] =>
+    match parseDoc d with
+    | none => "bad-op"
+    | some evs =>
+      match tomlSpec evs with
+      | .error _ => "agree"
+      | .ok fs => if showFacts fs == facts then "agree" else "differ " ++ showFacts fs
+  | ["tomlround", t] =>
+    match (parseVal t).bind valToTree with
+    | none => "bad-op"
+    | some tr =>
+      match emit tr with
+      | none => "noemit"
+      | some evs =>
+        match decode evs, tomlSpec evs with
+        | .ok fs, .ok gs =>
+          if sameDataB fs (tr.facts []) && sameDataB gs (tr.facts []) && !conflictB fs
+          then "ok " ++ showFacts fs else "fail"
+        | .error e, _ => "fail decode " ++ errStr e
+        | _, .error _ => "fail spec"
+  | ["tomlemit", t] =>
+    match (parseVal t).bind valToTree with
+    | none => "bad-op"
+    | some tr =>
+      match emit tr with
+      | none => "noemit"
+      | some evs => showDoc evs
   | _ => "bad-op"
 
 end CueVerif.Driver.C12
